@@ -452,4 +452,55 @@ def cstep (c : Cluster K) : CEv K → Cluster K
 
 def crun (c : Cluster K) (evs : List (CEv K)) : Cluster K := evs.foldl cstep c
 
+/-! ## 5. The session layer ← `scylla/src/client/session.rs` `Session::use_keyspace` (2002-2017), as the code has it:
+store the name in `Session.keyspace_name` (what `get_keyspace` reports) BEFORE validating it and before any
+connection has acknowledged anything; validate (`VerifiedKeyspaceName::new`, `?`); hand the verified name to
+`Cluster::use_keyspace`, i.e. to the worker's use-keyspace arm, and await that fan-out's answer. The stored name is
+never consulted: every call with a valid name starts its own fan-out. -/
+
+/-- What a call did, in the step it was made. -/
+inductive CallOutcome where
+  | rejected (e : BadName)     -- `Err(UseKeyspaceError::BadKeyspaceName(..))`, returned at once
+  | fanout (fid : Nat)         -- the answer is the answer of this fan-out
+  deriving DecidableEq, Repr
+
+structure Call where
+  name : String
+  caseSensitive : Bool
+  outcome : CallOutcome
+
+structure Session where
+  recorded : Option String              -- `Session.keyspace_name`
+  cluster : Cluster VerifiedName
+  calls : List Call                     -- ghost: every `use_keyspace` call, newest first
+
+def Session.init (perShard : Bool) (target : Nat) : Session :=
+  { recorded := none, cluster := Cluster.init perShard target, calls := [] }
+
+inductive SEv where
+  | call (name : String) (caseSensitive : Bool)    -- `session.use_keyspace(name, case_sensitive)`
+  | cluster (e : CEv VerifiedName)                 -- anything else that happens (worker requests come from calls only)
+
+def CEv.isUseKs {K : Type} : CEv K → Bool
+  | .useKs _ => true
+  | _ => false
+
+def sstep (s : Session) : SEv → Session
+  | .call name cs =>
+    let s := { s with recorded := some name }
+    match VerifiedName.new name cs with
+    | .error e => { s with calls := ⟨name, cs, .rejected e⟩ :: s.calls }
+    | .ok v =>
+      { s with cluster := cstep s.cluster (.useKs v),
+               calls := ⟨name, cs, .fanout s.cluster.fanouts.length⟩ :: s.calls }
+  | .cluster e => if e.isUseKs then s else { s with cluster := cstep s.cluster e }
+
+def srun (s : Session) (evs : List SEv) : Session := evs.foldl sstep s
+
+/-- The answer a call has received so far (`none` = still awaiting the fan-out). -/
+def Session.answer (s : Session) (c : Call) : Option Outcome :=
+  match c.outcome with
+  | .rejected _ => none
+  | .fanout fid => (s.cluster.fanouts.find? (·.id = fid)).bind (·.resp)
+
 end ScyllaVerif.Keyspace
